@@ -57,7 +57,7 @@ KPlainView(p) == CASE Kind = "doc" -> DPlainView(p) [] OTHER -> p
 KRef(ops) == CASE Kind = "counter" -> CRef(ops) [] Kind = "map" -> MRef(ops) [] Kind = "list" -> LRef(ops) [] Kind = "doc" -> DRef(ops)
 
 \* unique value tag of the k-th value of replica r's n-th call
-Val(r, n, k) == r * 100 + n * 10 + k
+Val(r, n, k) == r * 1000 + n * 10 + k
 Vals(r, n, cnt) == [k \in 1..cnt |-> Val(r, n, k)]
 
 \* calls that must succeed in local state x of replica r
@@ -241,6 +241,8 @@ Convergence == \A a, b \in Replicas : SameSet(a, b) =>
                    KView(st[a].snap) = KView(st[b].snap) /\ KSize(st[a].snap) = KSize(st[b].snap)
 \* C02: every replica shows the reference outcome of the SET of operations it holds - in every state
 RefOutcome == \A r \in Replicas : KView(st[r].snap) = KRef(AppliedOps(r))
+\* C02 (documents): the object rule stated directly on the node table
+DocObjRule == Kind = "doc" => \A r \in Replicas : DObjRule(st[r].snap, AppliedOps(r))
 \* C03: with one replica the datatype is its plain structure, call by call
 PlainRefinement == Cardinality(Replicas) = 1 =>
                      /\ \A r \in Replicas : KView(st[r].snap) = KPlainView(plain)
